@@ -199,7 +199,7 @@ theorem syncRemoveSession_no_inv {env : DEnv} {s : DState} (h : DealerInv s) (k 
   simp only [Invk.shapeC, Prod.mk.injEq] at hs
   have hinv := (syncRemoveSession_inv (env := env) h k).1
   have hc := (hinv.call.inv_call hv').1
-  exact (syncRemoveSession_calls h k _ hc).2.2 v hv (hs.2.2.trans hk) hs.2.1
+  exact (syncRemoveSession_calls h k _ hc).2.2 v hv (hs.2.2.1.trans hk) hs.2.1
 
 theorem armTimer_sub {env : DEnv} {s : DState} {v : Invk} (hv : v ∈ s.d.invs) (caller : SessKey) (req t : Nat) :
     StateSub s (armTimer env s caller req v t) := by
@@ -223,6 +223,9 @@ theorem dispatch_sub {env : DEnv} {s : DState} {v : Invk} (hv : v ∈ s.d.invs) 
   · exact syncError_sub ..
   · exact armTimer_sub hv ..
 
+theorem fullOut_sub (S : DState) (c i : ReqId) (t : Option Nat) : StateSub S (fullOut S c i t).st :=
+  ⟨by simp [fullOut], by simp [fullOut], fun v hv => ⟨v, (List.mem_filter.1 hv).1, rfl⟩⟩
+
 /-- what a CALL can change besides `calls`: cursors of registrations, one new invocation (with the next id
     of its callee's generator), that generator -/
 theorem syncCall_frame {env : DEnv} {s : DState} (h : DealerInv s) (caller : SessKey) (req : Nat) (opts : Dict)
@@ -232,87 +235,74 @@ theorem syncCall_frame {env : DEnv} {s : DState} (h : DealerInv s) (caller : Ses
     (∀ v' ∈ (syncCall env s caller req opts proc args kw rnd).st.d.invs,
       (∃ v ∈ s.d.invs, v.shapeC = v'.shapeC) ∨
       (v'.callId = ⟨caller, req⟩ ∧ (⟨caller, req⟩ : ReqId) ∉ s.d.calls ∧
-        v'.id = ⟨v'.callee, genOf s.invGen v'.callee + 1⟩ ∧ ∃ id, calleeRel s.d.regs id v'.callee)) := by
+        v'.id = ⟨v'.callee, genOf s.invGen v'.callee + 1⟩ ∧ calleeRel s.d.regs v'.regId v'.callee)) := by
   have ofSub : ∀ {s' : DState}, StateSub s s' →
       (∀ k, genOf s.invGen k ≤ genOf s'.invGen k) ∧ s'.d.regs.map Reg.shape = s.d.regs.map Reg.shape ∧
       (∀ v' ∈ s'.d.invs, (∃ v ∈ s.d.invs, v.shapeC = v'.shapeC) ∨
         (v'.callId = ⟨caller, req⟩ ∧ (⟨caller, req⟩ : ReqId) ∉ s.d.calls ∧
-          v'.id = ⟨v'.callee, genOf s.invGen v'.callee + 1⟩ ∧ ∃ id, calleeRel s.d.regs id v'.callee)) := by
+          v'.id = ⟨v'.callee, genOf s.invGen v'.callee + 1⟩ ∧ calleeRel s.d.regs v'.regId v'.callee)) := by
     intro s' hs
     exact ⟨fun k => by rw [hs.gen]; exact Nat.le_refl _, by rw [hs.regs], fun v' hv' => Or.inl (hs.invs v' hv')⟩
-  have hnp : StateSub s (noProc env s caller req).st := by
-    unfold noProc
-    split
-    · exact syncCancel_sub ..
-    · exact StateSub.refl _
-  rw [syncCall_eq]
-  split
-  · exact ofSub hnp
-  · rename_i reg hm
-    have hmem := matchProcedure_mem hm
-    split
-    · exact ofSub hnp
-    · split
-      · exact ofSub (StateSub.refl _)
-      · split
-        · rename_i hb
-          have hc0 : (⟨caller, req⟩ : ReqId) ∉ s.d.calls := by
-            intro hc'
-            obtain ⟨i, _, hb', _⟩ := h.call.lookup hc'
-            rw [hb] at hb'; cases hb'
-          split
-          · exact ofSub (StateSub.refl _)
-          · rename_i callee reg' hp
-            have hs := (pickCallee_shape hp).1
-            have hshape := setReg_shape h.reg.regs.ids hmem hs
-            -- the state after the cursor update
-            have h1 : ∀ {s' : DState}, StateSub { s with d := s.d.setReg reg' } s' →
-                (∀ k, genOf s.invGen k ≤ genOf s'.invGen k) ∧ s'.d.regs.map Reg.shape = s.d.regs.map Reg.shape ∧
-                (∀ v' ∈ s'.d.invs, (∃ v ∈ s.d.invs, v.shapeC = v'.shapeC) ∨
-                  (v'.callId = ⟨caller, req⟩ ∧ (⟨caller, req⟩ : ReqId) ∉ s.d.calls ∧
-                    v'.id = ⟨v'.callee, genOf s.invGen v'.callee + 1⟩ ∧ ∃ id, calleeRel s.d.regs id v'.callee)) := by
-              intro s' hsub
-              exact ⟨fun k => by rw [hsub.gen]; exact Nat.le_refl _, by rw [hsub.regs]; exact hshape,
-                fun v' hv' => Or.inl (hsub.invs v' hv')⟩
-            rw [firstChunk_eq]
-            split
-            · exact h1 (StateSub.refl _)
-            · exact h1 (StateSub.refl _)
-            · have hmemv : newInvk s caller req callee opts ∈
-                  (recordCall { s with d := s.d.setReg reg' } (newInvk s caller req callee opts) callee).d.invs := by
-                show _ ∈ _ ++ [_]
-                exact List.mem_append_right _ (List.mem_singleton.2 rfl)
-              have hsub := dispatch_sub (env := env) hmemv caller req callee (newInvk s caller req callee opts).id.req
-                (routerTimeout env reg callee opts)
-                (.invocation (newInvk s caller req callee opts).id.req reg.id (invDetails env reg caller callee opts proc) args kw)
-              refine ⟨fun k => ?_, ?_, fun v' hv' => ?_⟩
-              · rw [hsub.gen]; exact genOf_le_invGenNext _ _ _
-              · rw [hsub.regs]; exact hshape
-              · obtain ⟨w, hw, hws⟩ := hsub.invs v' hv'
-                rcases List.mem_append.1 (show w ∈ s.d.invs ++ [_] from hw) with hw | hw
-                · exact Or.inl ⟨w, hw, hws⟩
-                · right
-                  simp only [List.mem_singleton] at hw
-                  subst hw
-                  simp only [Invk.shapeC, Prod.mk.injEq] at hws
-                  refine ⟨hws.2.1.symm, hc0, ?_, ?_⟩
-                  · rw [← hws.1, ← hws.2.2, newInvk_id]
-                    rfl
-                  · rw [← hws.2.2]
-                    exact ⟨reg.id, reg, hmem, rfl, (pickCallee_shape hp).2.1⟩
-        · rename_i iid hb
-          split
-          · exact ofSub (StateSub.refl _)
-          · rename_i v0 hfi
-            have hv0 := (findInv_some_mem hfi).1
-            unfold laterChunk
-            simp only
-            refine ofSub ((StateSub.setInv (v' := { v0 with inProgress := opts.optFlag OptProgress }) hv0 rfl).trans
-              (dispatch_sub ?_ ..))
-            unfold Dealer.setInv
-            simp only
-            exact (mem_map_update (f := fun x : Invk => x.id) (u := fun _ => { v0 with inProgress := opts.optFlag OptProgress })).2
-              (Or.inr ⟨v0, hv0, rfl, rfl⟩)
+  -- states reached from the state after the cursor update
+  have ofSub1 : ∀ {reg reg' : Reg} {s' : DState}, reg ∈ s.d.regs → reg'.shape = reg.shape →
+      StateSub { s with d := s.d.setReg reg' } s' →
+      (∀ k, genOf s.invGen k ≤ genOf s'.invGen k) ∧ s'.d.regs.map Reg.shape = s.d.regs.map Reg.shape ∧
+      (∀ v' ∈ s'.d.invs, (∃ v ∈ s.d.invs, v.shapeC = v'.shapeC) ∨
+        (v'.callId = ⟨caller, req⟩ ∧ (⟨caller, req⟩ : ReqId) ∉ s.d.calls ∧
+          v'.id = ⟨v'.callee, genOf s.invGen v'.callee + 1⟩ ∧ calleeRel s.d.regs v'.regId v'.callee)) := by
+    intro reg reg' s' hmem hs hsub
+    exact ⟨fun k => by rw [hsub.gen]; exact Nat.le_refl _,
+      by rw [hsub.regs]; exact setReg_shape h.reg.regs.ids hmem hs, fun v' hv' => Or.inl (hsub.invs v' hv')⟩
+  -- … and from the state after recording the new call
+  have ofRec : ∀ {reg reg' : Reg} {callee : SessKey} {s' : DState}, reg ∈ s.d.regs → reg'.shape = reg.shape →
+      callee ∈ reg.callees → (⟨caller, req⟩ : ReqId) ∉ s.d.calls →
+      StateSub (recordCall { s with d := s.d.setReg reg' } (newInvk s reg caller req callee opts) callee) s' →
+      (∀ k, genOf s.invGen k ≤ genOf s'.invGen k) ∧ s'.d.regs.map Reg.shape = s.d.regs.map Reg.shape ∧
+      (∀ v' ∈ s'.d.invs, (∃ v ∈ s.d.invs, v.shapeC = v'.shapeC) ∨
+        (v'.callId = ⟨caller, req⟩ ∧ (⟨caller, req⟩ : ReqId) ∉ s.d.calls ∧
+          v'.id = ⟨v'.callee, genOf s.invGen v'.callee + 1⟩ ∧ calleeRel s.d.regs v'.regId v'.callee)) := by
+    intro reg reg' callee s' hmem hs hcal hc0 hsub
+    refine ⟨fun k => ?_, ?_, fun v' hv' => ?_⟩
+    · rw [hsub.gen]; exact genOf_le_invGenNext _ _ _
+    · rw [hsub.regs]; exact setReg_shape h.reg.regs.ids hmem hs
+    · obtain ⟨w, hw, hws⟩ := hsub.invs v' hv'
+      rcases List.mem_append.1 (show w ∈ s.d.invs ++ [_] from hw) with hw | hw
+      · exact Or.inl ⟨w, hw, hws⟩
+      · right
+        simp only [List.mem_singleton] at hw
+        subst hw
+        simp only [Invk.shapeC, Prod.mk.injEq] at hws
+        refine ⟨hws.2.1.symm, hc0, ?_, ?_⟩
+        · rw [← hws.1, ← hws.2.2.1, newInvk_id]
+          rfl
+        · rw [← hws.2.2.1, ← hws.2.2.2.1]
+          exact ⟨reg, hmem, rfl, hcal⟩
+  refine syncCall_cases (env := env) (P := fun o =>
+    (∀ k, genOf s.invGen k ≤ genOf o.st.invGen k) ∧ o.st.d.regs.map Reg.shape = s.d.regs.map Reg.shape ∧
+    (∀ v' ∈ o.st.d.invs, (∃ v ∈ s.d.invs, v.shapeC = v'.shapeC) ∨
+      (v'.callId = ⟨caller, req⟩ ∧ (⟨caller, req⟩ : ReqId) ∉ s.d.calls ∧
+        v'.id = ⟨v'.callee, genOf s.invGen v'.callee + 1⟩ ∧ calleeRel s.d.regs v'.regId v'.callee)))
+    h caller req opts proc args kw rnd ?_ ?_ ?_ ?_ ?_ ?_ ?_ ?_
+  · intro _; exact ofSub (StateSub.refl _)
+  · intro iid v0 _ _ hv0 _ _ _ _
+    refine ofSub ((StateSub.setInv (v' := { v0 with inProgress := opts.optFlag OptProgress }) hv0 rfl).trans
+      (armTimer_sub ?_ ..))
+    unfold Dealer.setInv
+    simp only
+    exact (mem_map_update (f := fun x : Invk => x.id) (u := fun _ => { v0 with inProgress := opts.optFlag OptProgress })).2
+      (Or.inr ⟨v0, hv0, rfl, rfl⟩)
+  · intro iid v0 _ _ hv0 _ _ _ _
+    exact ofSub ((StateSub.setInv (v' := { v0 with inProgress := opts.optFlag OptProgress }) hv0 rfl).trans
+      (fullOut_sub _ _ _ _))
+  · intro _ _ _; exact ofSub (StateSub.refl _)
+  · intro reg reg' callee e _ _ _ hmem _ hs _; exact ofSub1 hmem hs (StateSub.refl _)
+  · intro reg reg' callee _ _ _ hmem _ hs _; exact ofSub1 hmem hs (StateSub.refl _)
+  · intro reg reg' callee _ hc0 _ hmem hp hs _ _
+    refine ofRec hmem hs (pickCallee_mem hp).1 hc0 (armTimer_sub ?_ ..)
+    show _ ∈ _ ++ [_]
+    exact List.mem_append_right _ (List.mem_singleton.2 rfl)
+  · intro reg reg' callee _ hc0 _ hmem hp hs _ _
+    exact ofRec hmem hs (pickCallee_mem hp).1 hc0 (fullOut_sub _ _ _ _)
 
 theorem syncRegister_frame {s : DState} (h : DealerInv s) (callee : SessKey) (req : Nat) (proc m invoke : String)
     (disclose fwd wampURI : Bool) :
@@ -391,11 +381,11 @@ theorem DStep.gen_mono {s : DState} {o : DOut} (h : DealerInv s) (st : DStep s o
 theorem DStep.invs_frame {s : DState} {o : DOut} (h : DealerInv s) (st : DStep s o) :
     ∀ v' ∈ o.st.d.invs, (∃ v ∈ s.d.invs, v.shapeC = v'.shapeC) ∨
       (v'.callId ∉ s.d.calls ∧ IsCallStep s o v'.callId ∧ v'.id = ⟨v'.callee, genOf s.invGen v'.callee + 1⟩ ∧
-        ∃ id, calleeRel s.d.regs id v'.callee) := by
+        calleeRel s.d.regs v'.regId v'.callee) := by
   intro v' hv'
   have ofSub : StateSub s o.st → ((∃ v ∈ s.d.invs, v.shapeC = v'.shapeC) ∨
       (v'.callId ∉ s.d.calls ∧ IsCallStep s o v'.callId ∧ v'.id = ⟨v'.callee, genOf s.invGen v'.callee + 1⟩ ∧
-        ∃ id, calleeRel s.d.regs id v'.callee)) :=
+        calleeRel s.d.regs v'.regId v'.callee)) :=
     fun hs => Or.inl (hs.invs v' hv')
   cases st with
   | register => rw [(syncRegister_frame h ..).2.1] at hv'; exact Or.inl ⟨v', hv', rfl⟩
